@@ -67,7 +67,8 @@ def load_known():
 def match_known(known, prop, class_key):
     for k in known:
         if k['property'] == prop and k.get('status') == 'open' and \
-                k['class_key'] == class_key:
+                (k.get('class_key') == class_key
+                 or class_key in k.get('class_keys', ())):
             return k
     return None
 
@@ -175,13 +176,19 @@ def run_check(prop, tier, seed, out=sys.stdout):
     lines = []
     for kid, (k, n) in sorted(known_hits.items()):
         lines.append('KNOWN-FINDING: property=%s %s [%s, %d runs]'
-                     % (prop, k['what_fails'], k['class_key'], n))
+                     % (prop, k['what_fails'], k.get('class_key') or
+                        '%d listed cells' % len(k.get('class_keys', ())), n))
     reported = {}
     for r, v in violations:
         if v['class_key'] in reported:
             continue
         case = v.get('case') or r.get('case')
-        path, note = minimise_and_verify(prop, case, v, shadow_dir)
+        if len(reported) < 6:
+            path, note = minimise_and_verify(prop, case, v, shadow_dir)
+        else:
+            # many distinct classes: report the rest as found
+            path, note = write_replay(prop, case, v['class_key'],
+                                      v['message']), '(not minimised)'
         reported[v['class_key']] = path
         lines.append('VIOLATION property=%s replay=%s' % (prop, path))
         lines.append('  class=%s  %s  %s' % (v['class_key'],
